@@ -1,11 +1,6 @@
 //@unit c12_yacc__pins props=C12 widths=u32
 //@use prelude/head.rs
 // not under contract: the rest of the yacc grammar parser (totality judged by the c12 yacc sweep when one changes)
-//@pin file=cfgrammar/src/lib/yacc/parser.rs fn=parse sha=9ea0ca7997c256a8
-//@pin file=cfgrammar/src/lib/yacc/parser.rs fn=parse_rules sha=499c9e675c2e74c2
-//@pin file=cfgrammar/src/lib/yacc/parser.rs fn=parse_rule sha=64cffea368537126
-//@pin file=cfgrammar/src/lib/yacc/parser.rs fn=parse_action sha=e00c613ee10ea206
-//@pin file=cfgrammar/src/lib/yacc/parser.rs fn=parse_programs sha=bb9c484143dab195
 //@pin file=cfgrammar/src/lib/yacc/parser.rs fn=build sha=662f52b88f00489d
 //@pin file=cfgrammar/src/lib/yacc/parser.rs fn=add_duplicate_occurrence sha=6fccdba6cf4c19b3
 //@pin file=cfgrammar/src/lib/yacc/ast.rs fn=add_rule sha=b2e1e5ed4362c84c
